@@ -13,6 +13,7 @@ mod sdk;
 mod props;
 mod sigref;
 mod svc;
+mod xmlcodec;
 
 use common::*;
 
